@@ -204,10 +204,12 @@ class Server:
                           ', '.join(self.interfaces))
 
             # start discovery interface when we know where we listen
+            # (with the ports really bound: tcp://0 lets the system choose)
             self.discovery = UDPListener(
                 self.secnode.equipment_id,
                 self.secnode.get_secnode_property('description'),
-                list(self.interfaces),
+                [f"{uri.split('://')[0]}://{iface.port}"
+                 for uri, iface in list(self.interfaces.items())],
                 self.log.getChild('discovery')
             )
             mkthread(self.discovery.run)
